@@ -66,6 +66,14 @@ def main():
     for t in PRIMS:
         cells.append(("un", "(un neg %s)" % t, "fn main()\n{\n\tvar a: %s = %s;\n\tvar c = -a;\n}\n" % (t, lit(t))))
         cells.append(("un", "(un compl %s)" % t, "fn main()\n{\n\tvar a: %s = %s;\n\tvar c = !a;\n}\n" % (t, lit(t))))
+    # the same unary operators applied directly to a suffixed literal (the parser folds a minus into decimal literals of
+    # signed types; whatever it folds must not slip past the operand check), in four spellings
+    for t in PRIMS:
+        if t in ("bool", "char8"):
+            continue
+        for sp in ("-1%s", "- 1%s", "-0x1%s", "-(1%s)", "-0b1%s"):
+            cells.append(("un-literal", "(un neg %s)" % t, "fn main()\n{\n\tvar c = %s;\n}\n" % (sp % t)))
+        cells.append(("un-literal", "(un compl %s)" % t, "fn main()\n{\n\tvar c = !1%s;\n}\n" % t))
     for s_ in PRIMS:
         for d in PRIMS:
             cells.append(("cast", "(cast %s %s)" % (s_, d), "fn main()\n{\n\tvar a: %s = %s;\n\tvar c: %s = a as %s;\n}\n" % (s_, lit(s_), d, d)))
